@@ -3,7 +3,7 @@
 LOCKSET, CVPROTO, protocol ORDER, STRIDE, Parallel2DExecutor pass flags and
 ParallelWorkQueue worker pairing (DESIGN section 3, C33)."""
 from ..facts import extract, units_matching, Program, AnalysisBroken, sx_find, sx_str
-from ..match import (ev_write, is_call, call_args, call_obj, field_of, var_of, guard_blocks, lvalue_root, branch_edges)
+from ..match import (expand_locals, ev_write, is_call, call_args, call_obj, field_of, var_of, guard_blocks, lvalue_root, branch_edges)
 from ..lockset import LockModel
 from .c18 import _in_loop, _reaches, _loop_heads, _is_lit, _is_var
 
@@ -410,10 +410,11 @@ def stride(chk, P, L):
                 cd = [dd for _, _, dd in tb.events(lambda dd: dd["k"] == "decl" and dd["var"] == cv)]
                 okc = bool(cd) and L.accessor_field((sx_find(cd[0]["init"], lambda y: y[0] == "call") or [[None, ""]])[0][1]) == PEI + "::currentTaskCount"
         chk.judge(okc, "STRIDE", "worker:bound=index<currentTaskCount", site, "loop runs while index < current task count (strict)")
-    ex = P.fn(PEI + "::execute")
-    emp = [(b, i, e) for b, i, e in ex.calls() if e.get("fn", "").endswith("::emplace_back") and field_of(call_obj(e)) == PEI + "::threadInfo"]
-    chk.judge(len(emp) == 1, "STRIDE", "launch:one-ThreadInfo-site", ex.loc, "ThreadInfo objects are created at one site")
-    for b, i, e in emp:
+    # the launch site may live in execute() itself or in a helper of the class: it is looked up class-wide
+    launch = [(g, b, i, e) for g in P.methods_of(PEI) for b, i, e in g.calls()
+              if e.get("fn", "").endswith("::emplace_back") and field_of(call_obj(e)) == PEI + "::threadInfo"]
+    chk.judge(len(launch) == 1, "STRIDE", "launch:one-ThreadInfo-site", P.fn(PEI + "::execute").loc, "ThreadInfo objects are created at one site (found %d)" % len(launch))
+    for ex, b, i, e in launch:
         site = "%s:%d" % (ex.file, e["line"])
         a = call_args(e)
         iv = var_of(a[0]) if a else None
@@ -425,8 +426,8 @@ def stride(chk, P, L):
         chk.judge(bool(d) and _is_lit(d[0]["init"], "0") and okc, "STRIDE", "launch:i=0..numMaxThreads-1", site, "thread indices are 0 .. numMaxThreads-1")
         thr = [ev for _, _, ev in ex.events(lambda ev: ev["k"] == "call" and ev.get("op") == "=" and field_of(ev["x"][2]) == PEI + "::threads")]
         chk.judge(len(thr) == 1 and var_of(thr[0]["x"][2][3] if thr[0]["x"][2][0] == "opc" else None) == iv, "STRIDE", "launch:threads[i]", site, "thread i is stored at threads[i]")
-    rs = [e for _, _, e in ex.calls() if e.get("fn", "").endswith("::resize") and field_of(call_obj(e)) == PEI + "::threads"]
-    chk.judge(len(rs) == 1 and field_of(call_args(rs[0])[0]) == PEI + "::numMaxThreads", "STRIDE", "launch:threads.resize(numMaxThreads)", ex.loc, "threads has numMaxThreads entries")
+    rs = [e for g in P.methods_of(PEI) for _, _, e in g.calls() if e.get("fn", "").endswith("::resize") and field_of(call_obj(e)) == PEI + "::threads"]
+    chk.judge(len(rs) == 1 and field_of(call_args(rs[0])[0]) == PEI + "::numMaxThreads", "STRIDE", "launch:threads.resize(numMaxThreads)", P.fn(PEI + "::execute").loc, "threads has numMaxThreads entries")
     # numMaxThreads never changes after construction
     for fn in P.all_fns():
         for b, i, e in fn.events(lambda e: e["k"] == "mem" and e["field"] == PEI + "::numMaxThreads" and e["acc"] in ("w", "rw", "handout", "addr", "refarg")):
@@ -436,10 +437,59 @@ def stride(chk, P, L):
 
 # -------------------------------------------------------- Parallel2DExecutor
 
+def p2d_split(chk, P):
+    """Squares of one pass run concurrently, so two sub-squares that a split puts into the SAME pass must differ in both their row bin and their
+    column bin (a necessary condition of 'no two simultaneous invocations share an index'; the global argument over the recursion is not decided)."""
+    f = P.fn(P2D + "::addSquare")
+    ps = [p_[0] for p_ in f.d["params"]]
+    rec = [(b, i, e) for b, i, e in f.calls() if str(e.get("fn", "")) == P2D + "::addSquare" and len(call_args(e)) == 4]
+    if not chk.shape(bool(rec), "P2D", "split:recursive-calls", f.loc, "addSquare splits a square by calling itself (%d call sites)" % len(rec)):
+        return
+    def loopvars(b):
+        out = set()
+        for h in f.loops_of(b):
+            t = f.blocks[h].get("term")
+            if t and t.get("cond") is not None:
+                for y in sx_find(t["cond"], lambda y: y[0] == "var" and y[1] not in ps):
+                    out.add(y[1])
+        return out
+    def vars_of(x):
+        return {y[1] for y in sx_find(x, lambda y: y[0] == "var")}
+    sites = []
+    for b, i, e in rec:
+        a = call_args(e)
+        sites.append(dict(x=a[0], y=a[1], p=a[2], lv=loopvars(b), e=e))
+    bad = []
+    # (a) one call site executed several times (loop form): iterations that agree on the loop variables the pass depends on must differ in x and in y,
+    #     i.e. every other loop variable must occur in both coordinate expressions
+    for s_ in sites:
+        free = s_["lv"] - vars_of(s_["p"])
+        for w in sorted(free):
+            if w not in vars_of(s_["x"]) or w not in vars_of(s_["y"]):
+                bad.append("call at line %d: iterations differing only in `%s` go to the same pass %s but share %s" %
+                           (s_["e"]["line"], w, sx_str(s_["p"]), "the row bin " + sx_str(s_["x"]) if w not in vars_of(s_["x"]) else "the column bin " + sx_str(s_["y"])))
+    # (b) distinct call sites with structurally the same pass expression must differ in both coordinates
+    for n, s1 in enumerate(sites):
+        for s2 in sites[n + 1:]:
+            if sx_str(s1["p"]) == sx_str(s2["p"]) and not (s1["lv"] or s2["lv"]):
+                if sx_str(s1["x"]) == sx_str(s2["x"]) or sx_str(s1["y"]) == sx_str(s2["y"]):
+                    bad.append("calls at lines %d and %d both use pass %s and share a bin: (%s,%s) vs (%s,%s)" %
+                               (s1["e"]["line"], s2["e"]["line"], sx_str(s1["p"]), sx_str(s1["x"]), sx_str(s1["y"]), sx_str(s2["x"]), sx_str(s2["y"])))
+    chk.judge(not bad, "P2D", "split:same-pass-sub-squares-share-no-bin", f.loc, "; ".join(bad) if bad else
+              "sub-squares put into the same pass differ in both bins (%d call sites)" % len(sites))
+    # the leaf stores the square in the list of the pass it was given
+    leaf = [e for _, _, e in f.calls() if str(e.get("fn", "")).endswith("::push_back") and field_of(call_obj(e)) == P2D + "::squares"]
+    okl = len(leaf) == 1 and bool(sx_find(call_obj(leaf[0]), lambda y: y[0] == "var" and y[1] == ps[2])) and \
+        sorted(vars_of(call_args(leaf[0])[0]) & set(ps)) == sorted(ps[:2])
+    chk.judge(okl, "P2D", "split:leaf-stores-(x,y)-in-its-pass", f.loc, "a leaf square (x, y) is appended to squares[pass-1]")
+
+
 def p2d(chk, P):
     chk.rule("P2D", "Parallel2DExecutor: the user's initialize runs only in the first (triangle) pass and finish only in the last square pass; "
              "each pass is a separate blocking ParallelExecutor::execute; the non-parallel branch calls initialize/execute/finish itself; "
-             "the pass tasks forward initialize/finish under exactly those flags")
+             "the pass tasks forward initialize/finish under exactly those flags; a square's split never puts two sub-squares that share a row or column "
+             "bin into the same pass (squares of one pass run concurrently)")
+    p2d_split(chk, P)
     ex = P.fn(P2D + "::execute")
     T2 = "SimTK::Parallel2DExecutor::Task"
     seq = guard_blocks(ex, lambda c: c[0] == "op" and c[1] == "==" and field_of(c[2]) == P2D + "::executor" and _is_lit(c[3], "0"), 0)
@@ -471,7 +521,7 @@ def p2d(chk, P):
         a = call_args(e)
         site = "%s:%d" % (ex.file, e["line"])
         chk.judge(_is_lit(a[4], "false"), "P2D", "square:no-initialize", site, "square passes never initialize")
-        fin = a[5]
+        fin = expand_locals(ex, a[5])       # a named local for squares.size() is looked through
         okf = isinstance(fin, list) and fin[0] == "op" and fin[1] == "==" and var_of(fin[2]) is not None and \
             bool(sx_find(fin[3], lambda y: y[0] == "op" and y[1] == "-" and _is_lit(y[3], "1") and
                          bool(sx_find(y[2], lambda z: z[0] == "call" and z[1].endswith("::size") and field_of(z[2]) == P2D + "::squares"))))
@@ -480,7 +530,7 @@ def p2d(chk, P):
         iv = var_of(fin[2]) if okf else None
         heads = [h for h in ex.loops_of(b) if "cond" in (ex.blocks[h].get("term") or {})]
         okc = any(ex.blocks[h]["term"]["cond"][0] == "op" and ex.blocks[h]["term"]["cond"][1] == "<" and var_of(ex.blocks[h]["term"]["cond"][2]) == iv and
-                  bool(sx_find(ex.blocks[h]["term"]["cond"][3], lambda z: z[0] == "call" and z[1].endswith("::size") and field_of(z[2]) == P2D + "::squares")) for h in heads)
+                  bool(sx_find(expand_locals(ex, ex.blocks[h]["term"]["cond"][3]), lambda z: z[0] == "call" and z[1].endswith("::size") and field_of(z[2]) == P2D + "::squares")) for h in heads)
         d = [dd for _, _, dd in ex.events(lambda dd: dd["k"] == "decl" and dd["var"] == iv)]
         incs = [ev for _, _, ev in ex.events(lambda ev: ev["k"] == "assign" and var_of(ev["lhs"]) == iv)]
         chk.judge(okc and bool(d) and _is_lit(d[0]["init"], "0") and len(incs) == 1 and incs[0]["op"] == "++", "P2D", "square:loop-0..size-1", site,
@@ -535,7 +585,9 @@ def workqueue(chk, P, L):
     tb = P.fn(TB_WQ)
     pops = [(b, i, e) for b, i, e in tb.calls() if e.get("fn", "").endswith("::pop") and L.resolve_field(tb, call_obj(e)) == PWQ + "::taskQueue"]
     fronts = [(b, i, e) for b, i, e in tb.calls() if e.get("fn", "").endswith("::front") and L.resolve_field(tb, call_obj(e)) == PWQ + "::taskQueue"]
-    chk.judge(len(pops) == 1 and len(fronts) == 1, "PAIRCALL", "worker:one-pop", tb.loc, "one front()/pop() site")
+    # the rule starts from the worker's own front()/pop() of the task queue; when the worker does not touch the queue itself (taken through a helper), it cannot be applied
+    if chk.shape(bool(pops) or bool(fronts), "PAIRCALL", "worker:takes-tasks-from-the-queue-itself", tb.loc, "front()/pop() of taskQueue found in the worker body: %d/%d" % (len(fronts), len(pops))):
+        chk.judge(len(pops) == 1 and len(fronts) == 1, "PAIRCALL", "worker:one-pop", tb.loc, "one front()/pop() site")
     execs = list(tb.calls("SimTK::ParallelWorkQueue::Task::execute"))
     dels = [(b, i, e) for b, i, e in tb.events(lambda e: e["k"] == "delete")]
     chk.judge(len(execs) == 1 and len(dels) == 1, "PAIRCALL", "worker:one-execute-one-delete", tb.loc, "one execute and one delete site")
@@ -631,7 +683,10 @@ def workqueue(chk, P, L):
             p = d.path_exists(fin[0], lambda e: e is joins[0][2], lambda e: is_call(e, "std::unique_lock<std::mutex>::unlock") or e["k"] == "autodtor")
             chk.judge(p is None, "PAIRCALL", "%s:unlock<join" % dn, d.loc, "the mutex is released before joining (workers need it to exit)", p)
             jb = joins[0][0]
-            chk.judge(_in_loop(d, jb) and field_of(call_obj(joins[0][2])) == cls + "::threads", "PAIRCALL", "%s:join-each" % dn, d.loc, "join is called in a loop over threads")
+            over_threads = field_of(call_obj(joins[0][2])) == cls + "::threads" or \
+                any(dd["var"].startswith("__range") and dd.get("init") is not None and bool(sx_find(dd["init"], lambda y: y[0] == "mem" and y[2] == cls + "::threads"))
+                    for _, _, dd in d.events(lambda dd: dd["k"] == "decl"))     # index loop threads[i].join() or range-for over threads
+            chk.judge(_in_loop(d, jb) and over_threads, "PAIRCALL", "%s:join-each" % dn, d.loc, "join is called in a loop over threads")
     chk.floor("PAIRCALL", 22)
 
 
@@ -661,7 +716,8 @@ def drain(chk, P, L, tb):
                 res.add((b, blk["succ"][1] if neg else blk["succ"][0]))
         return res
     ee = empty_edge()
-    chk.judge(bool(ee), "PAIRCALL", "worker:emptiness-test", tb.loc, "the worker tests taskQueue.empty()")
+    if not chk.shape(bool(ee), "PAIRCALL", "worker:emptiness-test", tb.loc, "the worker body itself tests taskQueue.empty()"):
+        return
     flags = {d["var"]: ("true" if _is_lit(d["init"], "true") else "false") for _, _, d in tb.events(lambda d: d["k"] == "decl" and d["ty"] == "bool" and d["init"] is not None and
                                                                                                   (_is_lit(d["init"], "true") or _is_lit(d["init"], "false")))}
     wb, wi, we = waits[0]
@@ -776,6 +832,11 @@ MUTATIONS = [
     dict(name="work queue: completion outside the lock after the loop", file=_WQ,
          old="    if (decrementTaskCount) {\n        std::lock_guard<std::mutex> lock(queueMutex);\n        owner.markTaskCompleted();", new="    if (decrementTaskCount) {\n        owner.markTaskCompleted();",
          expect="markTaskCompleted-called-from"),
+    dict(name="seeded (sub-agent): the square split loops over (dy,dx) and derives the pass from dy only", file=_2D,
+         old="        addSquare(2*x+0, 2*y+1, 2*pass+1, level-1);\n        addSquare(2*x+1, 2*y+2, 2*pass+1, level-1);\n        addSquare(2*x+0, 2*y+2, 2*pass+2, level-1);\n        addSquare(2*x+1, 2*y+1, 2*pass+2, level-1);",
+         new="        for (int dy = 0; dy < 2; ++dy)\n            for (int dx = 0; dx < 2; ++dx)\n                addSquare(2*x+dx, 2*y+1+dy, 2*pass+1+dy, level-1);", expect="P2D:split:same-pass"),
+    dict(name="2D: two sub-squares of one pass share the row bin", file=_2D,
+         old="        addSquare(2*x+1, 2*y+2, 2*pass+1, level-1);", new="        addSquare(2*x+0, 2*y+2, 2*pass+1, level-1);", expect="P2D:split:same-pass"),
     dict(name="2D: every square pass finishes", file=_2D,
          old="false, \n                          i == (int)squares.size()-1);", new="false, \n                          true);", expect="square:finish-only-last"),
     dict(name="2D: triangle pass does not initialize", file=_2D,
